@@ -126,6 +126,10 @@ def generate(rng, tier, index, seed):
     else:
         mode = rng.weighted([("points", 4), ("window", 3), ("every", 3), ("bernoulli", 2), ("aftergrow", 1), ("afterbig", 3 if fam != "deep" else 14)])
         spec = {"mode": mode}
+        if fam == "tower" and rng.chance(2, 3):
+            # small enough for a collection at every single allocation of the whole program
+            mode = "every-all"
+            spec = {"mode": "every", "n": 1, "off_frac": 0, "max_gcs": 6000}
         if mode == "afterbig":
             # collections at the k allocations that follow every allocation of at least min_bytes (a grown VM stack, a vector,
             # a string buffer, a bignum): the moment a freshly built large object is referenced from few places
@@ -195,7 +199,7 @@ def resolve(case, nalloc):
         if n * spec["p1024"] // 1024 > 800:
             gc["p1024"] = max(1, 800 * 1024 // n)
     gc["heapcheck_every"] = c.pop("heapcheck_every", 0)
-    gc["max_forced"] = 1000
+    gc["max_forced"] = max(1000, spec.get("max_gcs", 0))
     c["gc"] = gc
     return c
 
